@@ -6,11 +6,17 @@
        reachable from (0,0) (hence all free cells mutually reachable).
    (c) generator model over explicit draws, ALL sizes, ALL valid draw sequences of any length: the grid keeps its shape
        and every (even, even) cell -- in particular the origin -- is free (walls only on odd lines).
-   (d) generator model, ALL sizes (except 1x1), ALL valid draw sequences: when the loop has emptied the chamber stack the
-       maze is Connected (origin free, every free cell reachable from (0,0)).  Named _partial because two facts are
-       hypotheses checked on every recorded run by the harness instead of being proved: the loop terminates (stack empty
-       after the recorded draws) and the fixed-capacity stack array never overflows ([cap_ok]). *)
-Require Import JV.Base.Prelude JV.Base.JaxIndex JV.Base.Codec JV.Base.TimeStep JV.Model.MazeGen JV.Model.Maze JV.Proofs.MazeGen JV.Proofs.MazeGenConn JV.Proofs.Maze.
+   (d) generator model, ALL sizes >= 1x1, ALL valid draw sequences -- UNCONDITIONAL (Proofs/Maze_GenTotal.v):
+       - the fixed-capacity chamber stack (create_chambers_stack: width*height rows) never overflows: the live chambers
+         have total area <= width*height and area >= 2 each, so #live + 1 <= capacity before every iteration ([cap_ok]);
+         on 1x1 (capacity 1) the conservative [cap_ok] is false but the single iteration pushes nothing;
+       - the loop terminates: the total live area drops by >= 1 per iteration, so width*height draws always suffice;
+         the finer measure (w/2)*(h/2) per chamber gives the tight fuel gen_fuel = max 1 ((width/2)*(height/2))
+         (attained e.g. on 2x4; the harness checks the real loop against it; draws beyond the last iteration are left over);
+       - the generated maze is Connected (origin free, every free cell reachable from (0,0)).
+       1x1 is not an exception: the result is the single free cell.
+   (e) Maze reset on a generated maze: Physical, agent off the target and LINKED to it by a path of free cells. *)
+Require Import JV.Base.Prelude JV.Base.JaxIndex JV.Base.Codec JV.Base.TimeStep JV.Model.MazeGen JV.Model.Maze JV.Proofs.MazeGen JV.Proofs.MazeGenConn JV.Proofs.Maze JV.Proofs.Maze_GenTotal.
 Theorem C10_Maze_reset_wellformed rows cols w i1 i2 :
   0 < cols -> wf_walls rows cols w -> valid_draw rows cols w i1 i2 = true ->
   let s := fst (gen_init rows cols w i1 i2) in
@@ -18,10 +24,10 @@ Theorem C10_Maze_reset_wellformed rows cols w i1 i2 :
   /\ (Connected rows cols w -> linked rows cols s /\ free rows cols w 0 0).
 Proof. exact (gen_init_wf rows cols w i1 i2). Qed.
 Print Assumptions C10_Maze_reset_wellformed.
-Theorem C10_MazeGen_checker_sound_connected_partial rows cols w :
+Theorem C10_MazeGen_checker_sound_connected rows cols w :
   connected_b rows cols w = true -> Connected rows cols w.
 Proof. exact (connected_b_sound rows cols w). Qed.
-Print Assumptions C10_MazeGen_checker_sound_connected_partial.
+Print Assumptions C10_MazeGen_checker_sound_connected.
 Theorem C10_MazeGen_all_pairs rows cols w p q :
   Connected rows cols w -> free rows cols w (fst p) (snd p) -> free rows cols w (fst q) (snd q) -> reach rows cols w p q.
 Proof. exact (connected_all rows cols w p q). Qed.
@@ -36,14 +42,56 @@ Theorem C10_MazeGen_origin_free width height draws :
   0 < width -> 0 < height -> draws_valid (gen_start width height) draws = true ->
   free height width (maze (fst (generate_maze width height draws))) 0 0.
 Proof. exact (generate_maze_origin_free width height draws). Qed.
-Theorem C10_MazeGen_connected_partial width height draws :
+Theorem C10_MazeGen_stack_never_overflows width height draws :
   1 <= width -> 1 <= height -> (2 <= width \/ 2 <= height) ->
+  draws_valid (gen_start width height) draws = true -> cap_ok (gen_start width height) draws = true.
+Proof. exact (generate_maze_cap_ok width height draws). Qed.
+Print Assumptions C10_MazeGen_stack_never_overflows.
+Theorem C10_MazeGen_terminates width height draws :
+  1 <= width -> 1 <= height -> (2 <= width \/ 2 <= height) ->
+  draws_valid (gen_start width height) draws = true -> width * height <= zlen draws ->
+  sidx (fst (generate_maze width height draws)) = 0.
+Proof. exact (generate_maze_terminates width height draws). Qed.
+Print Assumptions C10_MazeGen_terminates.
+Theorem C10_MazeGen_terminates_tight width height draws :
+  1 <= width -> 1 <= height ->
+  draws_valid (gen_start width height) draws = true -> gen_fuel width height <= zlen draws ->
+  sidx (fst (generate_maze width height draws)) = 0.
+Proof. exact (generate_maze_terminates_tight width height draws). Qed.
+Print Assumptions C10_MazeGen_terminates_tight.
+Theorem C10_MazeGen_fuel width height :
+  gen_fuel width height = Z.max 1 ((width / 2) * (height / 2)) /\ (1 <= width -> 1 <= height -> gen_fuel width height <= width * height).
+Proof. exact (conj eq_refl (gen_fuel_le width height)). Qed.
+Theorem C10_MazeGen_leftover_draws_ignored g draws extra :
+  sidx (fst (gen_loop g draws)) = 0 -> fst (gen_loop g (draws ++ extra)) = fst (gen_loop g draws).
+Proof. exact (gen_loop_app draws g extra). Qed.
+Theorem C10_MazeGen_connected width height draws :
+  1 <= width -> 1 <= height ->
+  draws_valid (gen_start width height) draws = true -> gen_fuel width height <= zlen draws ->
+  sidx (fst (generate_maze width height draws)) = 0
+  /\ Connected height width (maze (fst (generate_maze width height draws))).
+Proof. exact (generate_maze_connected_total width height draws). Qed.
+Print Assumptions C10_MazeGen_connected.
+Theorem C10_MazeGen_connected_when_finished width height draws :
+  1 <= width -> 1 <= height ->
   draws_valid (gen_start width height) draws = true ->
-  cap_ok (gen_start width height) draws = true ->
   sidx (fst (generate_maze width height draws)) = 0 ->
   Connected height width (maze (fst (generate_maze width height draws))).
-Proof. exact (generate_maze_connected width height draws). Qed.
-Print Assumptions C10_MazeGen_connected_partial.
+Proof. exact (generate_maze_connected_finished width height draws). Qed.
+Print Assumptions C10_MazeGen_connected_when_finished.
+Theorem C10_MazeGen_1x1 :
+  cap_ok (gen_start 1 1) [(1, 0)] = false /\ sidx (fst (generate_maze 1 1 [(1, 0)])) = 0.
+Proof. exact cap_ok_1x1_conservative. Qed.
+Theorem C10_Maze_generated_reset_linked rows cols draws i1 i2 :
+  1 <= rows -> 1 <= cols ->
+  draws_valid (gen_start cols rows) draws = true -> gen_fuel cols rows <= zlen draws ->
+  let w := maze (fst (generate_maze cols rows draws)) in
+  valid_draw rows cols w i1 i2 = true ->
+  let s := fst (gen_init rows cols w i1 i2) in
+  wf_walls rows cols w /\ Connected rows cols w
+  /\ Physical rows cols s /\ ~ at_target s /\ sc s = 0 /\ linked rows cols s.
+Proof. exact (generated_reset_linked rows cols draws i1 i2). Qed.
+Print Assumptions C10_Maze_generated_reset_linked.
 Example C10_Maze_nonvacuous :
   let g := generate_maze 4 4 [(1, 0); (3, 0); (1, 0)] in
   draws_valid (gen_start 4 4) [(1, 0); (3, 0); (1, 0)] = true /\ cap_ok (gen_start 4 4) [(1, 0); (3, 0); (1, 0)] = true /\ sidx (fst g) = 0 /\ snd g = []
@@ -52,3 +100,12 @@ Example C10_Maze_nonvacuous :
   /\ valid_draw 4 4 (maze (fst g)) 3 3 = false /\ valid_draw 4 4 (maze (fst g)) 5 3 = false
   /\ connected_b 2 2 [[false;true];[true;false]] = false.
 Proof. vm_compute. repeat split; reflexivity. Qed.
+(* the hypotheses of the unconditional theorem are satisfiable (the tail of the draws is left over); the fuel bound is
+   attained on a 4x2 grid (width 2, height 4): two iterations *)
+Example C10_MazeGen_connected_nonvacuous :
+  let draws := [(1, 0); (3, 0); (1, 0)] ++ repeat (0, 0) 13 in
+  gen_fuel 4 4 = 4 /\ gen_fuel 2 4 = 2 /\ sidx (fst (generate_maze 2 4 [(1, 0)])) = 1 /\ sidx (fst (generate_maze 2 4 [(1, 0); (1, 0)])) = 0
+  /\ draws_valid (gen_start 2 4) [(1, 0); (1, 0)] = true
+  /\ draws_valid (gen_start 4 4) draws = true /\ gen_fuel 4 4 <= zlen draws /\ zlen (snd (generate_maze 4 4 draws)) = 13
+  /\ valid_draw 4 4 (maze (fst (generate_maze 4 4 draws))) 3 12 = true.
+Proof. vm_compute. repeat split; try reflexivity; discriminate. Qed.
